@@ -80,13 +80,24 @@ Definition nonempty (s : list N) : bool := negb (is_nil s).
 
 (* ---- sorting ---- *)
 (* no adjacent inversion *)
-Fixpoint sorted_by (less : list N -> list N -> bool) (L : list (list N)) : Prop :=
-  match L with
+Fixpoint sorted_gen {A} (lt : A -> A -> bool) (l : list A) : Prop :=
+  match l with
   | [] => True
-  | a :: tl => match tl with [] => True | b :: _ => less b a = false end /\ sorted_by less tl
+  | a :: tl => match tl with [] => True | b :: _ => lt b a = false end /\ sorted_gen lt tl
   end.
+Definition sorted_by (less : list N -> list N -> bool) (L : list (list N)) : Prop := sorted_gen less L.
 (* strict weak order: irreflexive, transitive, incomparability transitive (given as negative transitivity) *)
 Definition strict_weak_order {A} (lt : A -> A -> bool) : Prop :=
   (forall a, lt a a = false) /\
   (forall a b c, lt a b = true -> lt b c = true -> lt a c = true) /\
   (forall a b c, lt a b = false -> lt b c = false -> lt a c = false).
+
+(* the merge of sortHelper.merge on lists of slices: take the left head iff less(left, right) *)
+Fixpoint lmerge (less : list N -> list N -> bool) (A B : list (list N)) : list (list N) :=
+  let fix aux (B : list (list N)) : list (list N) :=
+    match A, B with
+    | [], _ => B
+    | _, [] => A
+    | a :: A', b :: B' => if less a b then a :: lmerge less A' B else b :: aux B'
+    end in
+  aux B.
